@@ -8,7 +8,7 @@ replays each line through the same Lean definitions, compares, and evaluates the
 (F3.ChainX.Spec: a tracker over the observable history) on the implementation's own answers. A second
 stream runs three libp2p hosts over mocknet with the real Start loops (black box)."""
 
-NONTRIVIAL = r"^(get|feed|bcast|prune|bb) "
+NONTRIVIAL = r"^(get|feed|bcast|prune|bb|conc) "
 
 
 def search(ctx):
@@ -16,24 +16,22 @@ def search(ctx):
     found = []
     for seed in (ctx.seed + 101, ctx.seed + 202):
         st = ctx.correspond("h_chainx", "ChainX", tag="search", seed=seed, tier="thorough",
-                            env={"VERIF_CHAINX_HISTORIES": "400"}, nontrivial=NONTRIVIAL)
+                            env={"VERIF_CHAINX_HISTORIES": "400", "VERIF_CHAINX_SEEDS": "1"}, nontrivial=NONTRIVIAL)
         found += [m for m in st.get("messages", []) if m.startswith("ORACLE-FAIL")]
         if found:
             break
-    if not found:
-        st = ctx.correspond("h_chainx", "ChainX", args=["bb"], tag="search-bb", nontrivial=NONTRIVIAL)
-        found += [m for m in st.get("messages", []) if m.startswith("ORACLE-FAIL")]
     return found[:20] or None
 
 
 def run(ctx):
     ctx.prove()
     thorough = ctx.tier == "thorough"
-    streams = [ctx.correspond("h_chainx", "ChainX", tag="sync", nontrivial=NONTRIVIAL)]
+    # one process: sync histories (thorough: 2 derived seeds) followed by the 3-host black box
+    streams = [ctx.correspond("h_chainx", "ChainX", tag="sync+blackbox", nontrivial=NONTRIVIAL)]
     if thorough:
-        for k in (1, 2):
-            streams.append(ctx.correspond("h_chainx", "ChainX", tag="sync", seed=ctx.seed * 1000 + k, nontrivial=NONTRIVIAL))
-    streams.append(ctx.correspond("h_chainx", "ChainX", args=["bb"], tag="blackbox", nontrivial=NONTRIVIAL, race=thorough))
+        # goroutine-level sub-claim (partial): black box again and many goroutines through the same entry
+        # points, both under the race detector
+        streams.append(ctx.correspond("h_chainx", "ChainX", args=["racy"], tag="race", nontrivial=NONTRIVIAL, race=True))
     hist = {}
     for s in streams:
         for k, v in s.get("hist", {}).items():
@@ -43,8 +41,8 @@ def run(ctx):
              "RemoveChainsByInstance) or one pubsub payload pushed through validatePubSubMessage + cacheAsDiscoveredChain, "
              "with the caches of the touched instance dumped (keys in LRU order, placeholder flags, value chains) and "
              "compared with the model state; lru lines: one op of the real hashicorp cache vs F3.Lru; bb lines: one "
-             "broadcast / flood round over three mocknet hosts with the real Start loops. distinct_nontrivial = distinct "
-             "non-lru lines.",
+             "broadcast / flood round over three mocknet hosts with the real Start loops; conc lines (thorough, -race): "
+             "3200 concurrent ops of 8 goroutines on one subject. distinct_nontrivial = distinct non-lru lines.",
         trusted_base=[
             "F3.ChainX / F3.Lru hand models, tied by h_chainx (state-level comparison after every op); chain key = chain "
             "(merkle key collision-freeness is C14's theorem; the harness recomputes the real Key() of every returned chain "
@@ -55,12 +53,12 @@ def run(ctx):
         ],
         assumptions=[
             "one op = one lock-protected section; goroutine interleavings of the two loops of Start are exercised only by "
-            "the black-box stream (under -race in the thorough tier)",
+            "the black-box stream and the concurrent phase (both under -race in the thorough tier)",
             "timestamps/clock readings within int64 milliseconds without wrap; instances < 2^64 (the uint64 wrap of "
             "ID+lookahead is modelled)",
         ],
         search=search,
-        partial=["goroutine-level atomicity of the two Start loops (runtime; black-box validation only)",
+        partial=["goroutine-level atomicity of the two Start loops (runtime; black-box + -race validation only)",
                  "Broadcast dropping the wanted-cache entry when its 100-slot queue is full (not modelled; logged as a warning by the code)"],
         extra_cov={"capacities": "1..8 (wanted, discovered)", "histogram_total": hist},
     )
